@@ -75,3 +75,11 @@ Definition c13_step_ok (o : dstep_obs) : bool :=
   (so_rsts o <=? 1) &&
   (if 0 <? so_rsts o then Z.of_nat (length (ob_syns (so_pre o))) =? 32 else true) &&
   is_suffix_plus (ob_syns (so_pre o)) (ob_syns (so_post o)).
+
+(* C12 "connection ids in use between one address pair are unique": the connection id a SYN announces (the id
+   the new outgoing connection will RECEIVE on) is not the key of a connection that already exists *)
+Definition syn_keys (e : list devent) : list skey :=
+  flat_map (fun x => match x with EvSentSyn a c _ => [{| k_addr := a; k_conn := c |}] | _ => [] end) e.
+
+Definition c12_syn_fresh_ok (pre : dobs) (syns : list skey) : bool :=
+  forallb (fun k => negb (existsb (fun p => skey_eqb (fst p) k) (ob_streams pre))) syns.
